@@ -28,6 +28,7 @@ RULE = (
     "switch since its last call; distinct = different (code, backend, precision, previous shape, shape, switches survived, "
     "set of regimes hit) tuples"
 )
+STATE_MEASURE = "abstract state after each call = (code, backend, precision, previous alpha-set shape, current shape, switches survived (<=2), alpha0)"
 ASSUMPTIONS = [
     "reference = closed-form HistFactory piecewise functions in sim/ref/interp.py (code 2 in its continuous form; code 4 polynomial from an exactly solved 6x6 system, not pyhf's literal inverse)",
     "error model |got-ref| <= 64*eps*sum|terms| with eps of the working precision; alphas and histograms are rounded to the working precision before the reference is evaluated",
@@ -84,17 +85,18 @@ def _gen_hist(rng, code):
 
 
 def gen(rng: random.Random, k: int, tier: str) -> dict:
+    deep = tier == "thorough" and k % 3 == 2   # thorough: every third segment is a three times longer history
     nb = rng.choice([1, 1, 2, 3, 4])
     backends = rng.sample(BACKENDS, nb)
     if rng.random() < 0.6 and "numpy" not in backends:
         backends[0] = "numpy"
     cfg = {"backends": backends, "precs": rng.choice([["64b"], ["64b", "32b"], ["64b", "32b"]]),
-           "codes": rng.sample(CODES, rng.randint(1, 5)), "len": rng.randint(6, 40),
+           "codes": rng.sample(CODES, rng.randint(1, 5)), "len": rng.randint(6, 40) * (3 if deep else 1),
            "switch_w": rng.choice([0.0, 0.5, 1.5, 3.0]), "fault_rate": rng.choice([0.0, 0.1, 0.3])}
     ops, live, nextid = [], {}, 0
     a0s = {}
     cur = "numpy"
-    budget = 120.0
+    budget = 120.0 * (3 if deep else 1)
     if rng.random() < 0.7:
         b0 = rng.choice(backends)
         ops.append({"op": "switch", "backend": b0, "precision": rng.choice(cfg["precs"])})
